@@ -90,6 +90,7 @@ def run(chk):
     chk.rule("R5", "scope: summarize / union shrink `cols`, alias re-identifies every column, collect(keep_col_refs=False) starts afresh")
 
     vb = repo.mod("pipe.verbs")
+    _VB_DEFS.defs = vb.defs
     verb_names = {c.name for c in sym.verb_classes()}
 
     # ---- R1
@@ -303,6 +304,10 @@ def run(chk):
            "the ingress tests visibility instead of scope (hidden columns would be rejected) or nothing at all")  # fmt: skip
 
 
+class _VB_DEFS:  # (the verb module's definitions, set by run(): module-level ingress helpers are looked up here)
+    defs: dict = {}
+
+
 def _binder_of(use, name, f):
     """the innermost loop / comprehension around `use` that binds `name` -> its iterable, or None"""
     p = parent(use)
@@ -414,13 +419,21 @@ def _provenance(arg, f, table, cname):
             # maps every predicate through the join ingress (`pred.map_subtree(_preprocess_on)`), every later value must be
             # derived from it (or be a constant), and the predicates are type / function-type checked afterwards
             processed = False
-            ingress_names = {n.name for n in ast.walk(f) if isinstance(n, ast.FunctionDef) and n is not f and "preprocess" in n.name}
+            # the ingress: a function (nested in the verb or at module level) that resolves / refuses the references of `on`
+            # - recognised by what it does (it raises ValueError), however it is named and however it is handed over
+            # (by name, through functools.partial, ..)
+            ingress_names = {n.name for n in ast.walk(f) if isinstance(n, ast.FunctionDef) and n is not f}
+            for n_ in ast.walk(f):
+                if isinstance(n_, ast.Name) and n_.id not in ingress_names:
+                    tgt_ = next((d for q_, d in getattr(_VB_DEFS, "defs", {}).items() if q_ == n_.id and isinstance(d, ast.FunctionDef)), None)
+                    if tgt_ is not None and any(isinstance(r_, ast.Raise) and "ValueError" in norm(r_) for r_ in ast.walk(tgt_)):
+                        ingress_names.add(n_.id)
             for a in sorted(assigns, key=lambda n: n.lineno):
                 v = a.value
                 mentions = name in {n.id for n in ast.walk(v) if isinstance(n, ast.Name)}
                 through = any(
                     isinstance(c, ast.Call) and isinstance(c.func, ast.Attribute) and c.func.attr in ("map_subtree", "map_col_roots")
-                    and c.args and isinstance(c.args[0], ast.Name) and c.args[0].id in ingress_names
+                    and c.args and any(isinstance(x_, ast.Name) and x_.id in ingress_names for x_ in ast.walk(c.args[0]))
                     for c in ast.walk(v)
                 )
                 if through and mentions:
